@@ -197,6 +197,26 @@ pub fn key_of<M: Hash>(cfg: usize, state: u128, m: &M) -> u128 {
     ((h1.finish() as u128) << 64) | (h2.finish() as u128)
 }
 
+/// Runs scenario code that drives the subject. The scenario files assert that their own honest
+/// set-up operations succeed (`assert!(call.ok)` in `build` and inside macro-steps); on a tree that
+/// refuses such an operation the assertion fails. That is a verdict about the subject, not a crash
+/// of the machinery, so a panic raised from a scenario file (src/bin/*, its.rs, gw.rs) is returned
+/// as an error message to be reported as a mismatch; any other panic is propagated.
+pub fn guarded<R>(f: impl FnOnce() -> R) -> Result<R, String> {
+    match std::panic::catch_unwind(std::panic::AssertUnwindSafe(f)) {
+        Ok(r) => Ok(r),
+        Err(payload) => {
+            let info = crate::world::LAST_PANIC.with(|p| p.borrow_mut().take());
+            match info {
+                Some((file, line, msg)) if file.starts_with("src/bin/") || file.ends_with("src/its.rs") || file.ends_with("src/gw.rs") => {
+                    Err(format!("{}:{}: {}", file, line, msg))
+                }
+                _ => std::panic::resume_unwind(payload),
+            }
+        }
+    }
+}
+
 /// returns true when the state must be expanded (not yet explored with that much remaining depth)
 fn visit<A>(sh: &Shared<'_, A>, key: u128, remaining: u8) -> bool {
     let shard = &sh.visited[(key as usize) % SHARDS];
@@ -243,7 +263,9 @@ impl<'a, S: Scenario> Walker<'a, S> {
     ) -> bool {
         let mut out = StepOut::default();
         let calls0 = self.s.world(ctx).calls.get();
-        self.s.step(ctx, m, a, &mut out);
+        if let Err(msg) = guarded(|| self.s.step(ctx, m, a, &mut out)) {
+            out.fail("setup.operation-refused", format!("an honest set-up operation inside this step was refused: {}", msg));
+        }
         self.local.calls += self.s.world(ctx).calls.get() - calls0;
         self.trail.push(out.accepted);
         if count {
@@ -359,7 +381,9 @@ impl<'a, S: Scenario> Walker<'a, S> {
         let snap = w.snap();
         let mut out = StepOut::default();
         let calls0 = w.calls.get();
-        self.s.probe(ctx, m, &mut out);
+        if let Err(msg) = guarded(|| self.s.probe(ctx, m, &mut out)) {
+            out.fail("setup.operation-refused", format!("an honest set-up operation inside the probes was refused: {}", msg));
+        }
         self.local.calls += w.calls.get() - calls0;
         w.restore(&snap);
         self.local.checks += out.checks;
@@ -649,7 +673,12 @@ fn self_test<S: Scenario>(s: &S) -> Result<(), String> {
 
 /// Replays a path from a fresh world; returns the mismatches of the last step.
 pub fn replay_path<S: Scenario>(s: &S, cfg: usize, path: &[S::A]) -> (Vec<Mismatch>, Vec<bool>) {
-    let (ctx, mut m) = s.build(cfg);
+    let (ctx, mut m) = match guarded(|| s.build(cfg)) {
+        Ok(x) => x,
+        Err(msg) => {
+            return (vec![Mismatch { sig: "setup.operation-refused".into(), detail: format!("an honest set-up operation of the configuration was refused: {}", msg) }], vec![]);
+        }
+    };
     let mut acc = vec![];
     // the initial state is probed too (a violation can sit in the root state)
     let mut last = {
@@ -662,10 +691,17 @@ pub fn replay_path<S: Scenario>(s: &S, cfg: usize, path: &[S::A]) -> (Vec<Mismat
     };
     for a in path {
         let mut o = StepOut::default();
-        s.step(&ctx, &mut m, a, &mut o);
+        if let Err(msg) = guarded(|| s.step(&ctx, &mut m, a, &mut o)) {
+            o.fail("setup.operation-refused", format!("an honest set-up operation inside this step was refused: {}", msg));
+            last = o.mismatches;
+            acc.push(false);
+            break;
+        }
         let w = s.world(&ctx);
         let snap = w.snap();
-        s.probe(&ctx, &m, &mut o);
+        if let Err(msg) = guarded(|| s.probe(&ctx, &m, &mut o)) {
+            o.fail("setup.operation-refused", format!("an honest set-up operation inside the probes was refused: {}", msg));
+        }
         w.restore(&snap);
         acc.push(o.accepted);
         last = o.mismatches;
@@ -683,9 +719,23 @@ pub fn run<S: Scenario>(s: &S, opts: &Opts) -> Outcome {
     let known = Known::load();
     let id = s.id();
 
-    if let Err(e) = self_test(s) {
-        eprintln!("MACHINERY-FAILURE {}: determinism self-test failed: {}", id, e);
-        return Outcome { exit_code: 2 };
+    // every configuration's world is built once up front: a tree that refuses one of the honest
+    // set-up operations is reported as a violation (with an empty path), not as a crash
+    let mut setup_violation: Option<(usize, Mismatch)> = None;
+    for cfg in 0..s.n_configs() {
+        if let Err(msg) = guarded(|| {
+            let _ = s.build(cfg);
+        }) {
+            setup_violation = Some((cfg, Mismatch { sig: "setup.operation-refused".into(), detail: format!("an honest set-up operation of the configuration was refused: {}", msg) }));
+            break;
+        }
+    }
+
+    if setup_violation.is_none() {
+        if let Err(e) = self_test(s) {
+            eprintln!("MACHINERY-FAILURE {}: determinism self-test failed: {}", id, e);
+            return Outcome { exit_code: 2 };
+        }
     }
 
     let deadline = t0 + std::time::Duration::from_secs_f64(opts.wall_cap_s);
@@ -704,11 +754,11 @@ pub fn run<S: Scenario>(s: &S, opts: &Opts) -> Outcome {
     let mut known_hits_total: BTreeMap<String, (String, u64)> = BTreeMap::new();
     let mut samples: Vec<serde_json::Value> = vec![];
     let mut per_bound: Vec<serde_json::Value> = vec![];
-    let mut violation: Option<(usize, Vec<S::A>, Mismatch)> = None;
+    let mut violation: Option<(usize, Vec<S::A>, Mismatch)> = setup_violation.map(|(cfg, mm)| (cfg, vec![], mm));
 
     let distinct = Distinct::new();
     let mut bound = opts.start_depth.max(1).min(opts.max_depth);
-    while bound <= opts.max_depth {
+    while bound <= opts.max_depth && violation.is_none() {
         let tb = Instant::now();
         let sh: Shared<S::A> = new_shared(&distinct, deadline, opts.state_cap);
         let mut items = make_items(s, bound, &known);
